@@ -27,6 +27,17 @@ def run(ctx):
         "block payload = concatenation of the frame events' payloads in frame order (contiguous, creator order); frame of "
         "round r = exactly the stored events with round-received r, sorted by Lamport timestamp, payload as created; "
         "Lamport timestamp = 1 + max of the parents'.")
+    for fl in ("split", "stall", "splitfaults"):
+        # split: directed schedules (later round decided before an earlier one); stall: quorum loss then recovery with node 0 on
+        # a BadgerStore whose cache (100) is smaller than the undetermined backlog: C04 oracle on that node after every action
+        r2 = simcommon.run(ctx, fl)
+        f2, d2 = simcommon.findings_for(r2, "C04", ["e", "d", "r", "I"])
+        findings += f2; diffs += d2
+        c2 = simcommon.coverage_from(r2)
+        cov["evaluations"] += c2["evaluations"]; cov["histories"] += c2["histories"]
+        cov["traces_validated_against_impl"] += c2["traces_validated_against_impl"]
+        cov["distribution_" + fl] = c2["distribution"]; cov["histogram_" + fl] = c2["histogram"]
+    findings, diffs = findings[:10], diffs[:10]
     st = res["stats"]
     cov["histogram"]["c04"] = dict(frames_checked=_sum(st, "frames"), lamport_parent_pairs=_sum(st, "ltpairs"),
                                    blocks=_sum(st, "blocks"), events=_sum(st, "events"))
